@@ -129,6 +129,10 @@ def cases(tier, seed):
         d2 = d2[seed % 2::2]
     for t in d2:
         add(t, WORDS2, [["vec", C16], ["row2", F8]], "d2:")
+    # seeded random trees of depth <= 3 from the whole grammar (8 fixed samples, selected by VERIF_SEED mod 8), complex-heavy
+    from .common import random_trees
+    for t in random_trees(2000 + seed % 8, 40 if tier == "quick" else 1500, dtypes=("complex128", "complex64", "float32", "complex128")):
+        add(t, WORDS2, [["vec", C16], ["row2", F8]], "r:")
     seen = set()
     uniq = []
     for c in out:
